@@ -43,8 +43,14 @@ RULE = ('ensure_shapes: exhaustive, every shape of rank <= 4 with dims in {1,2,3
         'layouts x shortened arguments x read-only arrays x option dictionaries passed twice, in a forked child with a memory limit '
         'and a per-call alarm; the table also holds, for every entry point that takes option dictionaries, a variant in which every '
         'optional key of the live signature is present (sift_args naming max_imfs, nested pad dictionaries), and for every documented '
+        'non-default branch that handles the input arrays (energy-ratio stop of get_next_imf on a dominant oscillation, mask_sift with '
+        'array mask_amp / mask_freqs in the modes ratio_sig and abs) and for every documented '
         'input-normalisation branch an input that reaches it (unwrapped phase > 2 pi through get_cycle_vector / Cycles / phase_align / '
         'get_cycle_stat / bin_by_phase, 3-d second-layer input of the transforms, integer and float32 arrays). '
+        'The ensure_shapes / ensure_lists streams judge the support HELPERS (call signature, normalised shapes): mechanism-level only '
+        '(literal=False), accepted/rejected compared with the model whatever the error class, no claim on empty shapes and on '
+        'ensure_vector with all-singleton trailing axes. Stochastic entry points whose two seeded runs differ, time-outs on ACCEPTED '
+        'input, inputs that cannot be built and a failed child are skipped and tagged (rejected layouts that hang stay failures). '
         'Non-trivial: a shape of rank >= 2 / a pair that differs / an entry point with at least one alternative '
         'layout or option dictionary.' % (N, N, N))
 
@@ -74,8 +80,9 @@ def _ens_op(fn, shapes):
 
 
 def _cmp_ens(what, o, r):
+    """model vs helper: accepted (normalised shapes) or rejected - with ANY error, the property names no class"""
     if 'error' in o:
-        if r.status != 'err' or r.words != [o['error']]:
+        if r.status != 'err':
             return '%s: impl raised %s, model %s' % (what, o['error'], r.raw)
         return None
     if not r.ok or [[int(v) for v in (x or [])] for x in r.vecs] != o['shapes']:
@@ -88,6 +95,12 @@ def expect_one(fn, s):
     s = list(s)
     if len(s) == 0:
         return None                                   # 0-d: not an array of samples; the model states what happens
+    if 0 in s:
+        return None                                   # empty arrays are not signals of the quantifier
+    if fn == 'vec' and len(s) > 2 and all(d == 1 for d in s[1:]):
+        # (n,1,1), (1,1,1): "trailing singleton dimensions give identical results" - rejecting them (today's ensure_vector)
+        # and accepting them are both compatible with the property, which only forbids GENUINELY multi-column input
+        return None
     if fn == '2d':
         return ('ok', s + [1]) if len(s) == 1 else ('ok', s)
     if fn == '1d':
@@ -101,6 +114,9 @@ def expect_one(fn, s):
 
 
 def ensure_failures(fn, shapes, o):
+    """The support HELPERS against their documented contract. The property's quantifier is the public entry points (stream
+    entry_points carries the literal claim); the helpers' call signature, normalised shapes and verdicts are the anchored
+    mechanism: every failure here is mechanism-level (literal=False)."""
     fs = []
     name = FN[fn]
     exps = [expect_one(fn, s) for s in shapes]
@@ -109,20 +125,20 @@ def ensure_failures(fn, shapes, o):
     must_raise = any(e == ('raise',) for e in exps)
     what = 'shapes %s' % (shapes,)
     if not o.get('untouched', True):
-        fs.append(Failure('%s:input-modified' % name, what))
+        fs.append(Failure('%s:input-modified' % name, what, literal=False))
     if 'error' in o:
         if not must_raise:
-            fs.append(Failure('%s:valid-layout-rejected:%s' % (name, o['error']), what))
+            fs.append(Failure('%s:valid-layout-rejected:%s' % (name, o['error']), what, literal=False))
         return fs
     if must_raise:
         bad = [s for s, e in zip(shapes, exps) if e == ('raise',)][0]
         cls = 'two-columns' if len(bad) == 2 else 'nd'
-        fs.append(Failure('%s:multi-column-accepted:%s' % (name, cls), '%s accepted, returned shapes %s' % (what, o['shapes'])))
+        fs.append(Failure('%s:multi-column-accepted:%s' % (name, cls), '%s accepted, returned shapes %s' % (what, o['shapes']), literal=False))
         return fs
     if o['shapes'] != [e[1] for e in exps]:
-        fs.append(Failure('%s:wrong-normalised-shape' % name, '%s -> %s, expected %s' % (what, o['shapes'], [e[1] for e in exps])))
+        fs.append(Failure('%s:wrong-normalised-shape' % name, '%s -> %s, expected %s' % (what, o['shapes'], [e[1] for e in exps]), literal=False))
     if not o['data_ok']:
-        fs.append(Failure('%s:data-changed' % name, what))
+        fs.append(Failure('%s:data-changed' % name, what, literal=False))
     return fs
 
 
@@ -150,15 +166,18 @@ class EnsureShapes(Stream):
     def compare(self, case, out, results):
         if isinstance(out, ImplError):
             return 'harness: %s' % out['msg']
+        skipped = False
         for fn, r in zip(FN, results):
             d = _cmp_ens('%s%s' % (FN[fn], tuple(case['shape'])), out[fn], r)
-            if d:
+            if d and expect_one(fn, case['shape']) is None:
+                skipped = True          # a shape the property makes no claim about: the model records today's behaviour only
+            elif d:
                 return d
-        return None
+        return 'skip:model and helper differ on a shape the property makes no claim about' if skipped else None
 
     def holds(self, case, out):
         if isinstance(out, ImplError):
-            return [Failure('ensure-not-runnable', out['msg'])]
+            return [Failure('ensure-not-runnable', out['msg'], literal=False)]
         return [f for fn in FN for f in ensure_failures(fn, [case['shape']], out[fn])]
 
     def tags(self, case, out):
@@ -237,23 +256,30 @@ class EnsureLists(Stream):
     def compare(self, case, out, results):
         if isinstance(out, ImplError):
             return 'harness: %s' % out['msg']
+        def verdict(v):       # accepted / rejected (the error class is not part of the property)
+            return 'ok' if v == 'ok' else 'rejected'
+        skipped = False
         for d, o, r in zip(DIMS, out['eq'], results[:len(DIMS)]):
             m = 'ok' if r.ok else (r.words[0] if r.status == 'err' and r.words else r.raw)
-            if m != o:
+            if verdict(m) != verdict(o):
                 return 'ensure_equal_dims(%s, dim=%s): impl %s, model %s' % (case['shapes'], d, o, m)
         for fn, r in zip(FN, results[len(DIMS):]):
             d = _cmp_ens('%s%s' % (FN[fn], case['shapes']), out['ens'][fn], r)
-            if d:
+            if d and any(expect_one(fn, sh) is None for sh in case['shapes']):
+                skipped = True
+            elif d:
                 return d
+        if skipped:
+            return 'skip:model and helper differ on a shape the property makes no claim about'
         r = results[len(DIMS) + len(FN)]
         m = 'ok' if r.ok else (r.words[0] if r.status == 'err' and r.words else r.raw)
-        if m != out['eq_swapped']:
+        if verdict(m) != verdict(out['eq_swapped']):
             return 'ensure_equal_dims(%s reversed, dim=None): impl %s, model %s' % (case['shapes'], out['eq_swapped'], m)
         return None
 
     def holds(self, case, out):
         if isinstance(out, ImplError):
-            return [Failure('ensure-not-runnable', out['msg'])]
+            return [Failure('ensure-not-runnable', out['msg'], literal=False)]
         shapes = case['shapes']
         fs = [f for fn in FN for f in ensure_failures(fn, shapes, out['ens'][fn])]
         for d, o in zip(DIMS, out['eq']):
@@ -266,9 +292,9 @@ class EnsureLists(Stream):
                     continue
                 same = all(s[d] == shapes[0][d] for s in shapes)
             if same and o != 'ok':
-                fs.append(Failure('ensure_equal_dims:matching-rejected:%s' % o, 'shapes %s dim=%s' % (shapes, d)))
+                fs.append(Failure('ensure_equal_dims:matching-rejected:%s' % o, 'shapes %s dim=%s' % (shapes, d), literal=False))
             if not same and o == 'ok':
-                fs.append(Failure('ensure_equal_dims:mismatch-accepted', 'shapes %s dim=%s' % (shapes, d)))
+                fs.append(Failure('ensure_equal_dims:mismatch-accepted', 'shapes %s dim=%s' % (shapes, d), literal=False))
         return fs
 
     def tags(self, case, out):
@@ -288,6 +314,13 @@ class EnsureLists(Stream):
 # instance-only: every public numeric entry point
 # --------------------------------------------------------------------------------------------
 
+def not_reproducible(ep, out):
+    """a stochastic entry point whose two identically seeded runs (np.random.seed, the legacy global generator) differ: the
+    property speaks of DETERMINISTIC calls only - its value comparisons are skipped and tagged, side effects / rejections stay"""
+    b, r = out['base'], out['repeat']
+    return bool(ep.seeded) and 'error' not in b and 'error' not in r and b['out'] != r['out']
+
+
 def entry_failures(fn, ep, out):
     fs = {}
 
@@ -301,26 +334,29 @@ def entry_failures(fn, ep, out):
         return ('raised %s (%s)' % (r['error'], r.get('msg', ''))) if 'error' in r else 'returned %s' % (str(r['out'])[:120],)
 
     base = out['base']
+    values = not not_reproducible(ep, out)
     if 'error' in base:
         # the documented call itself fails on this input (degenerate signal: other properties' business);
-        # here only consistency is required: the repeated / read-only call must fail the same way, nothing is modified
+        # here only consistency is required: the repeated / read-only call must fail as well (whatever the error class),
+        # nothing is modified
         for tag in ('repeat', 'readonly'):
-            if out[tag].get('error') != base['error']:
+            if 'error' not in out[tag] and base['error'] != 'Timeout':
                 fail('repeat-differs:%s' % fn, 'first call %s, %s call %s' % (describe(base), tag, describe(out[tag])))
         for tag, names in out['mutated'].items():
             for nm in names:
                 fail(('options-mutated:%s:%s' if nm in ep.opts else 'input-mutated:%s:%s') % (fn, nm), 'differs after call [%s]' % tag)
         return list(fs.values())
-    if not same(base, out['repeat']):
+    if values and not same(base, out['repeat']) and out['repeat'].get('error') != 'Timeout':
         fail('repeat-differs:%s' % fn, 'first call %s, second call %s' % (describe(base), describe(out['repeat'])))
     ro = out['readonly']
     if 'error' in ro:
-        fail('readonly-rejected:%s:%s' % (fn, ro['error']), 'read-only input arrays: %s' % describe(ro))
-    elif not same(base, ro):
+        if ro['error'] != 'Timeout':          # wall-clock on accepted input is not the property's subject (skipped, tagged)
+            fail('readonly-rejected:%s:%s' % (fn, ro['error']), 'read-only input arrays: %s' % describe(ro))
+    elif values and not same(base, ro):
         fail('readonly-changes-result:%s' % fn, '%s vs %s' % (describe(base), describe(ro)))
-    if 'reuse' in out:
+    if 'reuse' in out and values:
         r1, r2 = out['reuse']
-        if not (same(base, r1) and same(base, r2)):
+        if not (same(base, r1) and same(base, r2)) and 'Timeout' not in (r1.get('error'), r2.get('error')):
             fail('option-reuse-changes-result:%s' % fn, 'same option dicts passed twice: %s then %s' % (describe(r1), describe(r2)))
     for tag, names in out['mutated'].items():
         for nm in names:
@@ -332,9 +368,10 @@ def entry_failures(fn, ep, out):
         for L, r in d.items():
             lay = _sup.LAYOUT_SHAPES.get(L, L)
             if 'error' in r:
-                kind = 'accepted-layout-hangs' if r['error'] == 'Timeout' else 'accepted-layout-raises'
-                fail('%s:%s:%s=%s:%s' % (kind, fn, arg, L, r['error']), '%s as %s %s' % (arg, lay, describe(r)))
-            elif not same(base, r):
+                if r['error'] == 'Timeout':
+                    continue                   # accepted input that runs long: termination is not claimed here (skipped, tagged)
+                fail('accepted-layout-raises:%s:%s=%s:%s' % (fn, arg, L, r['error']), '%s as %s %s' % (arg, lay, describe(r)))
+            elif values and not same(base, r):
                 fail('layout-changes-result:%s:%s=%s' % (fn, arg, L), '%s as %s gives %s, as vector %s' % (arg, lay, describe(r), describe(base)))
     for arg, d in out['rejects'].items():
         for L, r in d.items():
@@ -342,6 +379,7 @@ def entry_failures(fn, ep, out):
             if 'error' not in r:
                 fail('multi-column-accepted:%s:%s=%s' % (fn, arg, L), '%s as %s was processed: %s' % (arg, lay, describe(r)))
             elif r['error'] in ('Timeout', 'MemoryError'):
+                # "rejected with an error instead of being processed": running on until the budget is the property's subject
                 fail('rejected-layout-hangs:%s:%s=%s' % (fn, arg, L), '%s as %s: %s' % (arg, lay, r['error']))
     for arg, r in out['short'].items():
         if 'error' not in r:
@@ -349,6 +387,11 @@ def entry_failures(fn, ep, out):
         elif r['error'] in ('Timeout', 'MemoryError'):
             fail('mismatched-length-hangs:%s:%s' % (fn, arg), r['error'])
     return list(fs.values())
+
+
+def timeouts_skipped(out):
+    recs = [out['repeat'], out['readonly']] + list(out.get('reuse', [])) + [r for d in out['layouts'].values() for r in d.values()]
+    return any(r.get('error') == 'Timeout' for r in recs)
 
 
 _EPS = None
@@ -379,14 +422,27 @@ class EntryPoints(Stream):
 
     def holds(self, case, out):
         if isinstance(out, ImplError):
-            return [Failure('entry-point-not-runnable:%s:%s' % (case['fn'], out['error']), out['msg'])]
+            if out['error'] == 'Timeout':
+                return []
+            # the forked child as a whole failed: no layout / side-effect statement was evaluated (mechanism-level)
+            return [Failure('entry-point-not-runnable:%s:%s' % (case['fn'], out['error']), out['msg'], literal=False)]
+        if 'not_constructible' in out:
+            return []
         return entry_failures(case['fn'], eps()[case['fn']], out)
 
     def tags(self, case, out):
         ep = eps()[case['fn']]
         t = ['group=' + ep.group, 'fn=' + case['fn']]
-        if not isinstance(out, ImplError) and 'error' in out['base']:
+        if isinstance(out, ImplError):
+            return t + ['skipped:child-%s:%s' % (out['error'], case['fn'])]
+        if 'not_constructible' in out:
+            return t + ['skipped:inputs-not-constructible:%s:%s' % (case['fn'], out['not_constructible'])]
+        if 'error' in out['base']:
             t.append('base-call-raises:%s:%s' % (case['fn'], out['base']['error']))
+        if not_reproducible(ep, out):
+            t.append('skipped:value-comparisons:stochastic-call-not-reproducible:%s' % case['fn'])
+        if timeouts_skipped(out):
+            t.append('skipped:time-out-on-accepted-input:%s' % case['fn'])
         if not isinstance(out, ImplError):
             for arg, d in out['layouts'].items():
                 for L in d:
@@ -402,7 +458,8 @@ class EntryPoints(Stream):
 
     def nontrivial(self, case, out):
         ep = eps()[case['fn']]
-        return not isinstance(out, ImplError) and 'error' not in out['base'] and bool(ep.args or ep.opts)
+        return not isinstance(out, ImplError) and 'not_constructible' not in out and 'error' not in out['base'] \
+            and bool(ep.args or ep.opts)
 
     def shrink(self, case):
         for n in (64, 96, 128):
